@@ -5,6 +5,8 @@
 package reg
 
 import (
+	"io"
+	hclog "github.com/hashicorp/go-hclog"
 	"context"
 	"crypto/ecdh"
 	"crypto/ecdsa"
@@ -831,7 +833,12 @@ func (r *run) genCerts(op map[string]any, ln *Line) {
 			req.ClientStateSignature = ed25519.Sign(p, sb)
 		}
 	}
-	resp, err := nodetls.GenerateServerCertificates(w.Ctx, w.Store, req, w.StorageOpts()...)
+	gopts := w.StorageOpts()
+	if s(op, "lg") == "trace" {
+		// the caller's options carry a logger at trace level
+		gopts = append(gopts, nodeenrollment.WithLogger(hclog.New(&hclog.LoggerOptions{Level: hclog.Trace, Output: io.Discard})))
+	}
+	resp, err := nodetls.GenerateServerCertificates(w.Ctx, w.Store, req, gopts...)
 	switch {
 	case err != nil:
 		ln.Err = err.Error()
